@@ -19,6 +19,7 @@ from .values import (NONE, V, VBool, VChunks, VClass, VDict, VFunc, VInt, VModul
 
 pow2_f = z3.Function("pow2", z3.IntSort(), z3.IntSort())
 pyeq_f = z3.Function("pyeq", Val, Val, z3.BoolSort())
+member_f = z3.Function("member", Val, Val, z3.BoolSort())      # x in <untracked, unmutated container>
 ordlt_f = z3.Function("ord_lt", Val, Val, z3.BoolSort())      # `<` between untracked values (deterministic)
 
 
@@ -1227,6 +1228,10 @@ def m_tuple(eng, args, kwargs, node, frame):
 @model("frozenset", "set")
 def m_frozenset(eng, args, kwargs, node, frame):
     if not args:
+        fname = node.func.id if isinstance(getattr(node, "func", None), ast.Name) else ""
+        if fname == "set" and not eng.spec:
+            # a fresh mutable set of arbitrary values: characteristic array over Val, on the heap
+            return eng.alloc(VSet(arr=z3.K(Val, z3.BoolVal(False))))
         return VSet(members=frozenset())
     v = eng.deref(args[0])
     if isinstance(v, VSeq) and hasattr(v, "items"):
@@ -1570,8 +1575,9 @@ def call_method(eng, recv, r, name, args, kwargs, node, frame):
                     return VBool(z3.And([r.contains_term(o.at(z3.IntVal(i))) for i in range(cl)] or [z3.BoolVal(True)]))
                 k = fresh_bound("k")
                 return VBool(z3.ForAll([k], z3.Implies(z3.And(0 <= k, k < o.n), r.contains_term(o.at(k)))))
-        if name in ("add", "discard", "remove") and isinstance(recv, VRef):
-            pass
+        if name in ("add", "discard") and isinstance(recv, VRef) and r.arr is not None and r.arr.sort().domain() == Val:
+            eng.heap[recv.addr] = VSet(arr=z3.Store(r.arr, to_val(eng, args[0]), z3.BoolVal(name == "add")))
+            return NONE
         raise OutOfSubset(node, f"method set.{name}")
     if isinstance(r, VDict):
         fn = DICT_METHODS.get(name)
